@@ -4,6 +4,7 @@ package main
 
 import (
 	"encoding/json"
+	"fmt"
 	"sort"
 
 	"github.com/ludo-technologies/pyscn/internal/analyzer"
@@ -28,6 +29,15 @@ func buildTree(nodes []tedNode, pos *int, id *int) *analyzer.TreeNode {
 		t.AddChild(buildTree(nodes, pos, id))
 	}
 	return t
+}
+
+func cloneTree(t *analyzer.TreeNode, id *int) *analyzer.TreeNode {
+	n := analyzer.NewTreeNode(*id, t.Label)
+	*id++
+	for _, c := range t.Children {
+		n.AddChild(cloneTree(c, id))
+	}
+	return n
 }
 
 func costModels() map[string]analyzer.CostModel {
@@ -80,6 +90,7 @@ func init() {
 			// a SESSION on the same objects: compare an inner subtree of T1 on its own (against a fresh tree), then the whole pair again,
 			// then T1 against a fresh copy of itself; every call must give what a fresh analysis gives (no state may survive a call)
 			dAgain, dCopy, dSub := d12, 0.0, -1.0
+			attachedBad := ""
 			{
 				var sub *analyzer.TreeNode
 				var find func(n *analyzer.TreeNode, root bool)
@@ -96,6 +107,22 @@ func init() {
 					p = 0
 					other := buildTree(in.T2, &p, &id)
 					dSub = a.ComputeDistance(sub, other)
+				}
+				// a tree that is PART of a larger tree (attached: it has a parent and siblings) must compare like a detached copy of itself:
+				// the first child and the last child of the root, both argument orders
+				if len(t1.Children) > 0 {
+					for _, c := range []*analyzer.TreeNode{t1.Children[0], t1.Children[len(t1.Children)-1]} {
+						p = 0
+						o1 := buildTree(in.T2, &p, &id)
+						p = 0
+						o2 := buildTree(in.T2, &p, &id)
+						det := cloneTree(c, &id)
+						da, dd := a.ComputeDistance(c, o1), a.ComputeDistance(det, o2)
+						ra, rd := a.ComputeDistance(o1, c), a.ComputeDistance(o2, det)
+						if da != dd || ra != rd {
+							attachedBad = fmt.Sprintf("attached %v / %v, detached copy %v / %v", da, ra, dd, rd)
+						}
+					}
 				}
 				dAgain = a.ComputeDistance(t1, t2)
 				p = 0
@@ -114,7 +141,7 @@ func init() {
 				}
 				ren = append(ren, row)
 			}
-			out[name] = map[string]any{"d12_again": dAgain, "d_copy": dCopy, "d_sub": dSub, "d12": d12, "d21": d21, "d11": d11, "s12": s12, "s11": s11,
+			out[name] = map[string]any{"attached_vs_detached": attachedBad, "d12_again": dAgain, "d_copy": dCopy, "d_sub": dSub, "d12": d12, "d21": d21, "d11": d11, "s12": s12, "s11": s11,
 				"n1": t1.Size(), "n2": t2.Size(), "del": del, "ins": ins, "ren": ren}
 		}
 		return out, nil
